@@ -47,6 +47,17 @@ for p in props:
                  "a garbage / tombstone count, a growth policy, a free list, an index never reset, a high-water mark) so that the property fails only after 20 or more operations of a repeating pattern.  "
                  "Use two different letters for your two changes, state them in the README, and say why exhaustive enumeration of all histories of up to 6 operations / all inputs of up to 5 symbols / 2-3 "
                  "threads with 2 preemptions would NOT find it.  ") % rnd
+    if rnd >= 7:
+        focus = ("ROUND %d FOCUS (this overrides the category list further down).  Six rounds have covered off-by-ones, reordered updates, refusal paths, second lives, rare entry points, two-thread orderings, "
+                 "wrong answers with intact invariants, optimiser / build-variant effects, far-away inputs, re-entrant callbacks, degenerate configurations, shared helpers and drift.  Wanted now: "
+                 "(r) TWO INSTANCES - state that should be per object (or per call, or per thread) becomes shared: a local scratch buffer / counter / cursor / flag hoisted to module (static) scope or into a "
+                 "shared parent object, a cached pointer keyed too coarsely, so that ONE object (or one thread) behaves perfectly and the bug needs two live objects of the same kind (or two threads each with "
+                 "its own object) whose operations interleave, even sequentially: A.op1, B.op1, A.op2; (s) LIFE-CYCLE EDGES the headers allow - clean-up of a zero-initialised or already cleaned-up object, "
+                 "clean-up followed by a new init of the same storage, an object moved / swapped / copied as a struct and then used through the new location, a handle or task or node reused after its first life "
+                 "ended in a DIFFERENT way than the earlier rounds tried, statically initialised objects (the *_STATIC_INIT / init_static forms) next to dynamically initialised ones; "
+                 "(t) WHO CALLS - the operation is issued from a different thread than the one that created or last used the object (thread-local caches, thread ids captured at init, errno / last-error of the "
+                 "wrong thread), or from inside an at-exit / clean-up path of another object.  Use two different letters for your two changes, state them in the README, and say why enumeration of all histories "
+                 "of up to 6 operations on ONE object / all inputs of up to 5 symbols / 2-3 threads with 2 preemptions on ONE shared object would NOT find it.  ") % rnd
     t += EXTRA % dict(rnd=rnd, n=len(prev), prev="\n".join(prev), id=pid, commit=commit, focus=focus)
     open(out + "/PROMPT.txt", "w").write(t)
 print("ok")
